@@ -14,9 +14,11 @@ import (
 	"github.com/fullstorydev/grpchan/simrt"
 	"github.com/jhump/protoreflect/dynamic"
 	"google.golang.org/grpc"
+	"google.golang.org/grpc/codes"
 	"google.golang.org/grpc/credentials"
 	"google.golang.org/grpc/metadata"
 	"google.golang.org/grpc/peer"
+	"google.golang.org/grpc/status"
 	"google.golang.org/protobuf/proto"
 	"google.golang.org/protobuf/types/known/wrapperspb"
 )
@@ -149,9 +151,22 @@ type simCreds struct {
 func (c *simCreds) GetRequestMetadata(ctx context.Context, uri ...string) (map[string]string, error) {
 	c.s.instant(c.rpc, 'c', 0, "creds", func(e *Event) { e.Note = strings.Join(uri, ",") })
 	if c.spec.DelayN > 0 {
+		// a token refresh that takes time - and, like a well-behaved
+		// credential, gives up when the call's context ends
 		ev := c.s.begin(c.rpc, 'c', 9, "creds-delay")
-		c.s.sleep(time.Duration(c.spec.DelayN))
-		c.s.end(ev, nil)
+		d := time.Duration(c.spec.DelayN)
+		c.s.addInstant(time.Now().Add(d))
+		t := time.NewTimer(d)
+		select {
+		case <-t.C:
+			simrt.Woken("sleep")
+			c.s.end(ev, nil)
+		case <-ctx.Done():
+			t.Stop()
+			simrt.Woken("creds-ctx")
+			c.s.end(ev, ctx.Err())
+			return nil, ctx.Err()
+		}
 	}
 	if c.spec.Fail {
 		return nil, fmt.Errorf("credential lookup failed")
@@ -236,7 +251,16 @@ func (s *Sim) startRPC(rs *rpcState) {
 			s.addInstant(rs.deadline)
 		}
 		ctx, cc := context.WithCancelCause(base)
-		rs.ctx, rs.cancel = ctx, func() { cc(errors.New("the caller lost interest")) }
+		var cause error = errors.New("the caller lost interest")
+		switch (r.ID + int(uint64(s.prog.Seed)%3)) % 3 {
+		case 1:
+			// what errgroup.WithContext does: the context of the remaining calls
+			// is cancelled with the error of the sibling that failed first
+			cause = status.Error(codes.NotFound, "a sibling call failed")
+		case 2:
+			cause = fmt.Errorf("giving up: %w", status.Error(codes.Unavailable, "a sibling call failed"))
+		}
+		rs.ctx, rs.cancel = ctx, func() { cc(cause) }
 	case r.DeadlineN > 0:
 		rs.deadline = time.Now().Add(time.Duration(r.DeadlineN))
 		rs.ctx, rs.cancel = context.WithDeadline(base, rs.deadline)
@@ -927,6 +951,11 @@ func (s *Sim) handlerEnter(rs *rpcState, ctx context.Context, via string) *Event
 		if _, ok := metadata.FromOutgoingContext(ctx); ok {
 			e.Flags["outgoing-md-visible"] = "yes"
 		}
+		if _, ok := metadata.FromIncomingContext(ctx); !ok {
+			// over a network a handler always has incoming metadata, if only the
+			// transport's own keys
+			e.Flags["incoming-md-absent"] = "yes"
+		}
 		leaked := 0
 		for _, cv := range rs.ctxVals {
 			if ctx.Value(cv.key) != nil {
@@ -986,15 +1015,21 @@ func (s *Sim) streamHandler(rs *rpcState, stream grpc.ServerStream) (err error) 
 	ctx := stream.Context()
 	s.handlerEnter(rs, ctx, "stream")
 	s.instant(r.ID, 'h', 0, "impl-enter", nil)
+	var late []Op
 	defer func() {
 		s.instant(r.ID, 'h', 0, "impl-exit", func(e *Event) { e.Err = classify(err) })
 		s.handlerExit(rs, err, nil)
+		if len(late) > 0 {
+			s.spawnLate(rs, stream, late)
+		}
 	}()
 	name := fmt.Sprintf("h%d", r.ID)
 	for _, op := range r.Handler {
 		simrt.Yield(name + ":" + op.K)
 		var opErr error
 		switch op.K {
+		case "late":
+			late = append(late, op)
 		case "recv":
 			opErr = s.handlerRecv(rs, stream, op.N == 1)
 		case "recvall":
@@ -1111,6 +1146,58 @@ func (s *Sim) handlerRecv(rs *rpcState, stream grpc.ServerStream, junk bool) err
 	}
 	s.end(ev, err)
 	return err
+}
+
+// spawnLate: a goroutine the handler started keeps using the stream after the
+// handler has returned (a worker that was handed the stream and is a little
+// late). Whatever such an operation returns, it must return, and not by
+// bringing the process down.
+func (s *Sim) spawnLate(rs *rpcState, stream grpc.ServerStream, ops []Op) {
+	s.mu.Lock()
+	s.liveActors++
+	s.mu.Unlock()
+	site := fmt.Sprintf("actor:late%d", rs.r.ID)
+	simrt.GoSpawn(site)
+	go func() {
+		simrt.GoStart(site)
+		defer simrt.GoEnd()
+		simrt.SetName(fmt.Sprintf("late%d", rs.r.ID))
+		defer func() {
+			s.mu.Lock()
+			s.liveActors--
+			s.mu.Unlock()
+		}()
+		name := fmt.Sprintf("late%d", rs.r.ID)
+		for _, op := range ops {
+			// give the transport time to finish the call first
+			s.sleep(time.Duration(op.D))
+			simrt.Yield(name + ":op")
+			s.probe("late-server-operation")
+			switch op.N {
+			case 0:
+				ev := s.begin(rs.r.ID, 'h', 9, "late-send")
+				m := &MsgSpec{Tag: 999, Size: 10 + 7000*(int(op.D)%11)}
+				err := guard(ev, func() error { return stream.SendMsg(m.Build()) })
+				s.end(ev, err)
+			case 1:
+				ev := s.begin(rs.r.ID, 'h', 9, "late-sethdr")
+				err := guard(ev, func() error { return stream.SetHeader(metadata.Pairs("late", "h")) })
+				s.end(ev, err)
+			case 2:
+				ev := s.begin(rs.r.ID, 'h', 9, "late-settlr")
+				err := guard(ev, func() error { stream.SetTrailer(metadata.Pairs("late", "t")); return nil })
+				s.end(ev, err)
+			case 3:
+				ev := s.begin(rs.r.ID, 'h', 9, "late-recv")
+				err := guard(ev, func() error { return stream.RecvMsg(&grpchantesting.Message{}) })
+				s.end(ev, err)
+			default:
+				ev := s.begin(rs.r.ID, 'h', 9, "late-sendhdr")
+				err := guard(ev, func() error { return stream.SendHeader(metadata.Pairs("late", "s")) })
+				s.end(ev, err)
+			}
+		}
+	}()
 }
 
 // unaryHandler runs the handler script of a unary RPC. It mirrors generated
